@@ -1,6 +1,6 @@
 # executed by tools_manifest.py
 PENDING.update({k: 'check not built yet in this commit (claimed in DESIGN.md section 4; will move to checks when its machinery lands)'
-                for k in ['C01', 'C02', 'C08', 'C10', 'C11', 'C12', 'C13', 'C17']})
+                for k in ['C01', 'C08', 'C10', 'C11', 'C12', 'C13', 'C17']})
 
 check('C09', 'fault_enumeration',
       'For every sampled experiment configuration the complete single-crash space (after every mutating file-system effect x every '
@@ -26,3 +26,14 @@ check('C19', 'fault_enumeration',
       'loopback socket), correct content-length from the origin, process-crash (not power-loss) semantics.',
       'deterministic fault-injection simulation of disk and network (exhaustive single-fault sweep per configuration + seeded fault sequences), reference content oracle',
       'DESIGN.md 2.2, 2.3, 4 (C19)')
+
+check('C02', 'exploration',
+      'Seeded exploration of two spaces against the real for_each_client module: (1) thread interleavings - real threads under a '
+      'baton-passing scheduler whose every switch (at script ops and at every source line of for_each_client.py via sys.settrace) is '
+      'a PRNG decision, with a per-thread reference variable as the oracle for set/with/exception-exit/invalid-backend/bind-time; '
+      '(2) generated client programs (mixed dtypes, NaN/Inf on padding batches, aliasing hazards) x client collections x backends '
+      'jit/debug/pmap(1..8 devices), run as generator tasks that the scheduler interleaves, closes early or whose batch iterables '
+      'raise, compared result-by-result with the plain Python fold under jax.disable_jit and with bit-exact snapshots of all inputs.',
+      'Sampling, not enumeration. Forced host CPU devices stand in for accelerators; pre-emption granularity is a source line.',
+      'deterministic simulation: seeded thread scheduler (baton passing + settrace pre-emption) and seeded generator-task scheduler with fault injection; refinement against a sequential reference fold',
+      'DESIGN.md 2.4, 4 (C02)')
